@@ -120,7 +120,7 @@ def from_meshio(m,
     if m.cell_sets:
         subdomains = {k: v[meshio_type].astype(np.int32)
                       for k, v in m.cell_sets_dict.items()
-                      if meshio_type in v}
+                      if meshio_type in v and k.split(":")[0] != "gmsh"}
 
     # create temporary mesh for matching boundary elements
     mtmp = mesh_type(p, t, validate=False)
@@ -181,15 +181,19 @@ def from_meshio(m,
             subdomains = {}
             tags = np.unique(elements_tag)
 
-            def find_tagname(tag):
+            def find_tagname(tag, dim):
+                # gmsh numbers the physical groups of each dimension
                 for key in m.field_data:
-                    if m.field_data[key][0] == tag:
+                    if (m.field_data[key][0] == tag
+                            and m.field_data[key][1] == dim):
                         return key
                 return None
 
             for tag in tags:
                 t_set = np.nonzero(tag == elements_tag)[0].astype(np.int32)
-                subdomains[find_tagname(tag)] = t_set
+                name = find_tagname(tag, mtmp.dim())
+                if name is not None:
+                    subdomains[name] = t_set
 
             # find tagged boundaries
             if bnd_type in m.cell_data_dict['gmsh:physical']:
@@ -211,7 +215,9 @@ def from_meshio(m,
             boundaries = {}
             for tag in np.unique(tags):
                 tagindex = np.nonzero(tags == tag)[0].astype(np.int32)
-                boundaries[find_tagname(tag)] = index[tagindex, 1]
+                name = find_tagname(tag, mtmp.dim() - 1)
+                if name is not None:
+                    boundaries[name] = index[tagindex, 1]
 
         except Exception:
             logger.warning("Failure to parse tags from meshio.")
